@@ -112,13 +112,13 @@ def run_scenario(scn, tid, parser_factory=None, fresh=None):
     parser.parse = capturing_parse
     try:
         return _run_calls(scn, tid, impl, conv, parser, orig_parse, captured, hostfns, names_py, names0, heap0,
-                          counter, nodeids, host, ret_refs)
+                          counter, nodeids, host, ret_refs, rets)
     finally:
         del parser.parse          # restore the class method on a shared parser
 
 
 def _run_calls(scn, tid, impl, conv, parser, orig_parse, captured, hostfns, names_py, names0, heap0, counter, nodeids, host,
-               ret_refs):
+               ret_refs, rets=None):
     calls = []
     events_all = []
     anon = 0
@@ -206,9 +206,36 @@ def _run_calls(scn, tid, impl, conv, parser, orig_parse, captured, hostfns, name
     case = {'tid': tid, 'calls': calls, 'names0': names0, 'heap0': heap0, 'host': host_spec(host, ret_refs),
             'events': events_all, 'overflow': bool(TRACER.overflow),
             'functions_frozen': TRACER.functions_digest() == digest0}
-    if 'bound' in scn:
-        case['bound'] = scn['bound']
+    case['bound'] = scn.get('bound') or size_bound(names_py, rets or {}, [c['src'] for c in scn['calls']])
     return case
+
+
+CAP = 10000
+
+
+def size_bound(names_py, rets, sources):
+    """max(cap, longest list / dict / string the host supplies or the source spells out)."""
+    best = [CAP]
+    seen = set()
+
+    def walk(v, d=0):
+        if isinstance(v, (list, dict, tuple, str)):
+            if id(v) in seen or d > 30:
+                return
+            seen.add(id(v))
+            best[0] = max(best[0], len(v))
+            if isinstance(v, dict):
+                for x in v.values():
+                    walk(x, d + 1)
+            elif not isinstance(v, str):
+                for x in v:
+                    walk(x, d + 1)
+    for nm in names_py:
+        walk(dict(nm))
+    walk(dict(rets))
+    for s in sources:
+        best[0] = max(best[0], len(s) if len(s) > CAP else 0)
+    return best[0]
 
 
 class MultiResult:
@@ -233,7 +260,7 @@ class MultiResult:
         return cov
 
 
-def validate(cases, deviations, procs=16, timeout=1800, coverage=False, keep=None, module='TraceVM', cfg=None, props=None):
+def validate(cases, deviations, procs=16, timeout=700, coverage=False, keep=None, module='TraceVM', cfg=None, props=None):
     """Validate the recorded cases with TLC: the cases are split into chunks, one
     single-worker TLC process per chunk (measured: one 16-worker TLC is slower than one
     worker on these chain-shaped state graphs; 16 processes scale linearly).
